@@ -114,7 +114,7 @@ func (dt DateTime) TryEqual(input Any) (bool, bool) {
 	if !ok {
 		return false, true
 	}
-	if dt.l == val.l && dt.hasTime() {
+	if dt.l == val.l && dt.comparableAsInstant() {
 		return dt.dateTime.Equal(val.dateTime), true
 	}
 
@@ -149,7 +149,7 @@ func (dt DateTime) Less(input Any) (Boolean, error) {
 	if !ok {
 		return false, fmt.Errorf("%w, %T, %T", ErrTypeMismatch, dt, input)
 	}
-	if dt.l == val.l && dt.hasTime() {
+	if dt.l == val.l && dt.comparableAsInstant() {
 		return Boolean(dt.dateTime.Before(val.dateTime)), nil
 	}
 
@@ -181,6 +181,15 @@ func (dt DateTime) Less(input Any) (Boolean, error) {
 // was read in).
 func (dt DateTime) hasTime() bool {
 	return dateTimeMap[dt.l] > dtDay
+}
+
+// comparableAsInstant reports whether two values of dt's layout compare like
+// their instants. That needs a precision of minutes or finer: offsets are whole
+// minutes, so the normalised components of such values are their instants, while
+// a value of hour precision with an offset of +05:30 hides thirty minutes that
+// take no part in a comparison down to the hour.
+func (dt DateTime) comparableAsInstant() bool {
+	return dateTimeMap[dt.l] > dtHour
 }
 
 // normalized returns the time whose components take part in a comparison: the
